@@ -55,6 +55,9 @@ type Node struct {
 	// OnRequest is called (outside the lock) for every request before it is answered.
 	// It may block (scheduling) and may return a fault to inject.
 	OnRequest func(r Req) FaultKind
+	// Gate, if set, is called for every request before OnRequest, WITHOUT any lock held: it may block
+	// to impose a completion order on concurrent requests.
+	Gate func(r Req)
 	seq       int
 	Log       []Req
 	KeepLog   bool
@@ -175,7 +178,11 @@ func (n *Node) RoundTrip(req *http.Request) (*http.Response, error) {
 		n.Log = append(n.Log, r)
 	}
 	hook := n.OnRequest
+	gate := n.Gate
 	n.mu.Unlock()
+	if gate != nil {
+		gate(r)
+	}
 
 	fault := NoFault
 	if hook != nil {
